@@ -606,3 +606,10 @@ def conditions():
 
 
 _flags.int_format_placeholder = True     # log f-strings with symbolic ints are not the subject here (see vf/flags.py)
+
+
+def e2_obligations(tier):
+    """AVDTP messages longer than one signalling packet are serialised by Protocol.send_message: the per-iteration
+    verification condition (shared with C19) covers the packet count / START-CONTINUE-END labelling at full scale"""
+    from vf import e2k
+    return [e2k.avdtp_send_iteration()]
